@@ -28,6 +28,7 @@ import (
 	"github.com/ajitpratap0/GoSQLX/pkg/gosqlx"
 	"github.com/ajitpratap0/GoSQLX/pkg/models"
 	"github.com/ajitpratap0/GoSQLX/pkg/sql/ast"
+	"github.com/ajitpratap0/GoSQLX/pkg/sql/parser"
 	"github.com/ajitpratap0/GoSQLX/pkg/sql/security"
 	"github.com/ajitpratap0/GoSQLX/pkg/sql/tokenizer"
 
@@ -51,6 +52,18 @@ func main() {
 		tier = "quick"
 	}
 	run = core.NewRun("C09", tier, "model_checking")
+	if len(os.Args) == 6 && os.Args[1] == "--histories" {
+		b, err := os.ReadFile(os.Args[2])
+		if err != nil {
+			core.Fatalf("child: %v", err)
+		}
+		var k, n int
+		fmt.Sscan(os.Args[3], &k)
+		fmt.Sscan(os.Args[4], &n)
+		replayAll(strings.Split(string(b), "\n"), k, n)
+		run.Export(os.Args[5])
+		return
+	}
 	run.Rule = "cleanliness: every (pooled type, field) pair of the extracted schema, populated, put and got back; histories: every history of the history machine of Pools.tla (<= 4 steps quick, <= 5 thorough) replayed on real trees with deep snapshots; non-trivial = a cycle whose field can hold content, or a history in which something is released or drawn while another slot is held"
 	run.Assumptions = []string{
 		"sync.Pool identity is pinned with GOMAXPROCS(1)+LockOSThread so that the node put is the node got; a dropped node is replaced by a fresh one, which is clean by construction",
@@ -126,14 +139,46 @@ func main() {
 	st2 := hp.Stat("pinned shape: released nodes stay dirty in the pool")
 	st2.ExpectViol = "CleanInPoolH"
 	run.AddTLC(st2)
-	for i, c := range h.Cases {
-		var hist []hstep
-		if err := json.Unmarshal([]byte(c), &hist); err != nil {
-			core.Fatalf("bad history: %v", err)
-		}
-		replay(hist, i)
+	hw, err := core.RunTLC(core.TLCOpts{Spec: "Pools", Cfg: "Pools_hist_writes.cfg", Timeout: 2 * time.Minute})
+	if err != nil || hw.Violation != "SnapshotStable" {
+		core.Fatalf("Pools_hist_writes.cfg must violate SnapshotStable (got %q, %v)", hw.Violation, err)
 	}
-	run.Traces(int64(len(h.Cases)))
+	st3 := hw.Stat("writes-through shape: a library that completes a token window in place changes what the caller holds")
+	st3.ExpectViol = "SnapshotStable"
+	run.AddTLC(st3)
+	cases := h.Cases
+	if tier == "thorough" {
+		// the histories are independent: eight child processes (each pinned to one thread, each with its own
+		// pools, which keep whatever the child's earlier histories left in them) take every eighth history
+		dir, err := os.MkdirTemp("", "verif-c09-")
+		if err != nil {
+			core.Fatalf("scratch: %v", err)
+		}
+		core.RemoveAtExit(dir)
+		in := dir + "/histories.ndjson"
+		if err := os.WriteFile(in, []byte(strings.Join(cases, "\n")), 0o644); err != nil {
+			core.Fatalf("scratch: %v", err)
+		}
+		const shards = 8
+		var wg sync.WaitGroup
+		results := make([]core.ChildResult, shards)
+		for k := 0; k < shards; k++ {
+			wg.Add(1)
+			go func(k int) {
+				defer wg.Done()
+				results[k] = run.RunChild([]string{"--histories", in, fmt.Sprint(k), fmt.Sprint(shards)}, fmt.Sprintf("%s/out%d.json", dir, k), 40*time.Minute)
+			}(k)
+		}
+		wg.Wait()
+		for k, res := range results {
+			if !res.Merged || res.Crashed || res.TimedOut {
+				core.Fatalf("history shard %d did not finish (crashed=%v timed out=%v):\n%s", k, res.Crashed, res.TimedOut, res.Text)
+			}
+		}
+	} else {
+		replayAll(cases, 0, 1)
+	}
+	run.Traces(int64(len(cases)))
 	concurrent(tier)
 	run.Exhaustive = true
 	run.Finish()
@@ -325,9 +370,20 @@ func snap(h *holding) string {
 func tokDigest(ts []models.TokenWithSpan) string {
 	var b strings.Builder
 	for _, t := range ts {
-		fmt.Fprintf(&b, "%d%s", int(t.Token.Type), t.Token.Value)
+		fmt.Fprintf(&b, "%d%s@%d:%d-%d:%d", int(t.Token.Type), t.Token.Value, t.Start.Line, t.Start.Column, t.End.Line, t.End.Column)
 	}
 	return b.String()
+}
+
+// replayAll replays every n-th history starting with the k-th.
+func replayAll(cases []string, k, n int) {
+	for i := k; i < len(cases); i += n {
+		var hist []hstep
+		if err := json.Unmarshal([]byte(cases[i]), &hist); err != nil {
+			core.Fatalf("bad history: %v", err)
+		}
+		replay(hist, i)
+	}
 }
 
 func replay(hist []hstep, idx int) {
@@ -393,11 +449,21 @@ func replay(hist []hstep, idx int) {
 			if tree, err := gosqlx.Parse(failSQL[s.Kind]); err == nil {
 				ast.ReleaseAST(tree)
 			}
+		case "use":
+			// the caller hands what it holds back to the library, which may only read it
+			if len(slots) > 1 {
+				overlap = true
+			}
+			use(slots[s.Slot], s.Kind)
 		}
 		// what is still held must be unchanged
 		for name, h := range slots {
 			if now := snap(h); now != h.snapshot {
-				fail(i, "held-value-modified|after-"+s.Op, "values handed to the caller are never modified by later library activity", map[string]any{"slot": name, "now": firstN(now, 400)}, firstN(h.snapshot, 400))
+				after := s.Op
+				if s.Op == "use" {
+					after += ":" + s.Kind
+				}
+				fail(i, "held-value-modified|after-"+after, "values handed to the caller are never modified by later library activity", map[string]any{"slot": name, "now": firstN(now, 400)}, firstN(h.snapshot, 400))
 				h.snapshot = now
 			}
 		}
@@ -410,6 +476,82 @@ func replay(hist []hstep, idx int) {
 	}
 	for _, h := range slots {
 		ast.ReleaseAST(h.tree)
+	}
+}
+
+// use hands a held value back to the library.  Token windows: nine prefixes of the held token slice (short, a third, half, two thirds, all
+// but the last one to three tokens) and two-token windows along it - none of them ends in the end marker, all
+// have spare capacity behind them that belongs to the caller.
+func use(h *holding, kind string) {
+	windows := func(f func(w []models.TokenWithSpan)) {
+		n := len(h.toks)
+		for _, k := range []int{1, 2, 3, n / 3, n / 2, 2 * n / 3, n - 3, n - 2, n - 1} {
+			if k >= 1 && k < n {
+				f(h.toks[:k])
+			}
+		}
+		for i := 1; i+2 < n; i += 7 {
+			f(h.toks[i : i+2])
+		}
+	}
+	switch kind {
+	case "parse-tokens":
+		p := parser.NewParser()
+		if tree, err := p.ParseFromModelTokens(h.toks); err == nil {
+			ast.ReleaseAST(tree)
+		}
+		if tree, err := p.ParseFromModelTokensWithPositions(h.toks); err == nil {
+			ast.ReleaseAST(tree)
+		}
+		p.Release()
+	case "parse-window":
+		p := parser.NewParser()
+		windows(func(w []models.TokenWithSpan) {
+			if tree, err := p.ParseFromModelTokens(w); err == nil {
+				ast.ReleaseAST(tree)
+			}
+			if tree, err := p.ParseFromModelTokensWithPositions(w); err == nil {
+				ast.ReleaseAST(tree)
+			}
+		})
+		p.Release()
+	case "recover-window":
+		p := parser.NewParser()
+		windows(func(w []models.TokenWithSpan) { p.ParseWithRecoveryFromModelTokens(w) })
+		p.Release()
+	case "context-window":
+		p := parser.NewParser()
+		windows(func(w []models.TokenWithSpan) {
+			if tree, err := p.ParseContextFromModelTokens(context.Background(), w); err == nil {
+				ast.ReleaseAST(tree)
+			}
+		})
+		p.Release()
+	case "scan":
+		security.NewScanner().Scan(h.tree)
+		sc, _ := security.NewScannerWithSeverity(security.SeverityHigh)
+		sc.Scan(h.tree)
+	case "serialise":
+		_ = h.tree.SQL()
+		for _, st := range h.tree.Statements {
+			if s, ok := st.(interface{ SQL() string }); ok {
+				_ = s.SQL()
+			}
+		}
+	case "format":
+		_ = h.tree.Format(ast.CompactStyle())
+		_ = h.tree.Format(ast.ReadableStyle())
+	case "extract":
+		gosqlx.ExtractMetadata(h.tree)
+		gosqlx.ExtractTablesQualified(h.tree)
+		gosqlx.ExtractColumnsQualified(h.tree)
+	case "walk":
+		ast.Inspect(h.tree, func(ast.Node) bool { return true })
+		for _, st := range h.tree.Statements {
+			ast.Inspect(st, func(n ast.Node) bool { return n == nil || len(n.Children()) < 3 })
+		}
+	default:
+		core.Fatalf("unknown use kind %q", kind)
 	}
 }
 
